@@ -318,6 +318,30 @@ def single_return(outs):
     return rets[0], PROVED, ""
 
 
+def all_returns(outs):
+    """-> (list of return outcomes, verdict, detail): like single_return, for bodies that return along several paths
+    (data-dependent fast paths).  The paths partition the inputs (every branch splits the path condition), so a
+    property of the result holds iff it holds on every return path under that path's condition; paths whose condition
+    is unsatisfiable are dropped."""
+    rets = returns(outs)
+    for o in panics(outs):
+        s, w = pc_status(o.pc)
+        if s == "sat":
+            return None, REFUTED, "panics (%s in %s) on valid input %s" % (o.info.get("msg"), o.info.get("fn"), w if w else "")
+        if s == "unknown":
+            return None, UNDECIDED, "possible panic (%s in %s): %s" % (o.info.get("msg"), o.info.get("fn"), w)
+    live = []
+    for o in rets:
+        s, w = pc_status(o.pc) if o.pc else ("sat", None)
+        if s != "unsat":
+            live.append(o)
+    if not live:
+        return None, UNDECIDED, "no return path"
+    if len(live) > 8:
+        return None, UNDECIDED, "%d return paths" % len(live)
+    return live, PROVED, ""
+
+
 class Env(object):
     """facts + kinds, created once per check"""
 
